@@ -5,6 +5,7 @@ use std::io::{BufRead, Write};
 use std::panic::{catch_unwind, AssertUnwindSafe};
 
 pub mod util;
+pub mod sim;
 
 /// Runs `f` on every non-empty stdin line; a panic inside `f` prints `PANIC`.
 pub fn main_loop(f: fn(&str) -> String) {
